@@ -269,9 +269,11 @@ CHECKS = {
               "with the certified curve; mcmc_init must be the chosen sample (median-period member for 3 / 5 rows in shuffled order) "
               "in the prior's units; every parameter of the prior must be a named variable of the returned model. Half of the eligible "
               "lattice priors are built through JokerPrior.default(sigma_v=...), uncertainties are declared in km/s or m/s "
-              "independently of the velocities."),
+              "independently of the velocities. Off the lattice model_rv, the observed node and the ln_likelihood deterministic are "
+              "compared at random parameter points of seeded random real-valued problems with the TLC-certified floating-point "
+              "transcription of Gauss.tla (independent Kepler solver; quick 16, thorough 240; 1e-6 relative)."),
         design_ref="DESIGN.md section 3 C11",
-        note=("On the lattice only. NOT decided: the prior term of the model's total log-density (pymc transforms / Jacobians); it is "
+        note=("Exhaustive on the lattice only; off the lattice explored on seeded random problems. NOT decided: the prior term of the model's total log-density (pymc transforms / Jacobians); it is "
               "bound only structurally (the free variables are the prior's variables, whose densities are the declared ones)."),
         technique="TLA+ spec (Gauss.Curve) exact rationals checked with TLC; replay of TLC-enumerated structural points through setup_mcmc; total monitor",
     ),
